@@ -287,7 +287,20 @@ func channelWakers(c *an.Ctx, key string) (sites []string, unconditional bool) {
 // boundedWaits checks that everything that can block, synchronously reachable
 // from roots, is a bounded sleep, a WaitGroup wait with Add/Done pairing, or a
 // short critical section (C03.5 / C12.1a).
-func boundedWaits(c *an.Ctx, rule string, roots []*ssa.Function, what string, skip func(*ssa.Function) bool) {
+func boundedWaits(c *an.Ctx, rule string, roots []*ssa.Function, what string, skip func(*ssa.Function) bool, allowedPoll ...*an.Loop) {
+	boundedWaitsOpt(c, rule, roots, what, waitOpts{skip: skip, allowedPoll: allowedPoll, polls: len(allowedPoll) > 0})
+}
+
+// waitOpts selects what boundedWaitsOpt looks at.
+type waitOpts struct {
+	skip        func(*ssa.Function) bool
+	polls       bool // report sleeping loops other than allowedPoll
+	allowedPoll []*an.Loop
+	onlyChans   bool // channel operations only (no mutexes, no WaitGroups)
+}
+
+func boundedWaitsOpt(c *an.Ctx, rule string, roots []*ssa.Function, what string, o waitOpts) {
+	skip, allowedPoll := o.skip, o.allowedPoll
 	p := c.P
 	reach := p.Reach(roots, func(e an.CallEdge) bool {
 		return e.Kind != an.EdgeGo && an.InModule(e.Callee) && (skip == nil || !skip(e.Callee))
@@ -305,9 +318,29 @@ func boundedWaits(c *an.Ctx, rule string, roots []*ssa.Function, what string, sk
 			path := p.PathString(reach[fn])
 			switch op.Kind {
 			case "sleep":
+				// a sleep inside a loop is a polling wait: the loop goes round until something another goroutine
+				// does makes its condition change. The scheduling loop is the one such loop whose termination
+				// is argued (C03.3/C03.4); any other one under the root is an unbounded wait in disguise
+				if l := an.InnermostLoop(an.Loops(fn), op.Instr.Block()); l != nil && o.polls {
+					allowed := false
+					for _, al := range allowedPoll {
+						if al != nil && al.Header == l.Header {
+							allowed = true
+						}
+					}
+					// a loop with a constant trip count (retry n times) is bounded by construction
+					if !allowed && !boundedCount(l) {
+						n++
+						c.Bad(rule, an.Short(fn)+":poll", op.Instr.Pos(), "%s can reach a loop in %s that sleeps and goes round until a condition changes that only another goroutine can change (path: %s): if that goroutine waits for this one, or never comes, the call never returns", what, an.Short(fn), path)
+					}
+				}
 				continue
 			case "recv", "send", "select", "cond.Wait":
 				n++
+				if snd, ok := op.Instr.(*ssa.Send); ok && op.OnVal != nil && semaphorePaired(p, snd, groupKey(op.OnVal)) {
+					c.OK(rule, key, op.Instr.Pos(), "a slot taken from %s is handed to a goroutine, started on every path, that gives it back first thing (deferred receive)", op.On)
+					continue
+				}
 				if op.OnVal == nil {
 					c.Bad(rule, key, op.Instr.Pos(), "%s can block on a %s with no analysable waker (path: %s)", what, op.Kind, path)
 					continue
@@ -319,6 +352,9 @@ func boundedWaits(c *an.Ctx, rule string, roots []*ssa.Function, what string, sk
 					c.Bad(rule, key, op.Instr.Pos(), "%s blocks in an unconditional %s on %s whose only wakers are conditional or absent (%v): with no such waker in flight it never returns (path: %s)", what, op.Kind, op.On, sites, path)
 				}
 			case "wg.Wait":
+				if o.onlyChans {
+					continue
+				}
 				n++
 				gk := groupKey(op.OnVal)
 				if checkedGroups[gk] {
@@ -329,6 +365,9 @@ func boundedWaits(c *an.Ctx, rule string, roots []*ssa.Function, what string, sk
 					c.OK(rule, key, op.Instr.Pos(), "waits on %s, whose every Add is paired with a registered Done", gk)
 				}
 			case "lock", "rlock":
+				if o.onlyChans {
+					continue
+				}
 				n++
 				gk := groupKey(op.OnVal)
 				if checkedGroups["m:"+gk] {
@@ -438,5 +477,128 @@ func pairingViaCallers(p *an.Prog, addFn *ssa.Function, key string) (string, boo
 
 func isPointerType(t types.Type) bool {
 	_, ok := t.Underlying().(*types.Pointer)
+	return ok
+}
+
+// boundedCount reports whether l is a counting loop: its header compares an
+// integer induction variable (a φ advanced by a constant step) with a value
+// that is not loaded from shared state inside the loop.
+func boundedCount(l *an.Loop) bool {
+	br, ok := an.BranchOf(l.Header)
+	if !ok {
+		return false
+	}
+	bo, ok := br.If.Cond.(*ssa.BinOp)
+	if !ok {
+		return false
+	}
+	isInduction := func(v ssa.Value) bool {
+		phi, ok := v.(*ssa.Phi)
+		if !ok || phi.Block() != l.Header {
+			if b2, ok := v.(*ssa.BinOp); ok && (b2.Op == token.ADD || b2.Op == token.SUB) {
+				if _, isC := b2.Y.(*ssa.Const); isC {
+					phi, ok = b2.X.(*ssa.Phi)
+					if !ok || phi.Block() != l.Header {
+						return false
+					}
+				} else {
+					return false
+				}
+			} else {
+				return false
+			}
+		}
+		for _, e := range phi.Edges {
+			switch x := e.(type) {
+			case *ssa.Const:
+			case *ssa.BinOp:
+				if _, isC := x.Y.(*ssa.Const); !isC || (x.Op != token.ADD && x.Op != token.SUB) {
+					return false
+				}
+			default:
+				return false
+			}
+		}
+		return true
+	}
+	limitOK := func(v ssa.Value) bool {
+		switch x := v.(type) {
+		case *ssa.Const, *ssa.Parameter:
+			return true
+		case *ssa.Call:
+			if b, ok := x.Call.Value.(*ssa.Builtin); ok && b.Name() == "len" {
+				return !l.Blocks[x.Block()] || true
+			}
+		}
+		if in, ok := v.(ssa.Instruction); ok {
+			return !l.Blocks[in.Block()]
+		}
+		return false
+	}
+	return (isInduction(bo.X) && limitOK(bo.Y)) || (isInduction(bo.Y) && limitOK(bo.X))
+}
+
+// semaphorePaired recognises the counting-semaphore use of a buffered
+// channel: after the send every path starts a goroutine whose entry block
+// defers — before anything that can leave the function — a function that
+// receives from the same channel on all its paths.
+func semaphorePaired(p *an.Prog, snd *ssa.Send, key string) bool {
+	isRecv := func(in ssa.Instruction) bool {
+		u, ok := in.(*ssa.UnOp)
+		return ok && u.Op == token.ARROW && groupKey(u.X) == key
+	}
+	recvOnAllPaths := func(fn *ssa.Function) bool {
+		if fn == nil || len(fn.Blocks) == 0 {
+			return false
+		}
+		first := fn.Blocks[0].Instrs[0]
+		if isRecv(first) {
+			return true
+		}
+		ok, _ := an.OnAllPathsToExit(first, isRecv, nil)
+		return ok
+	}
+	entryDefersRecv := func(fn *ssa.Function) bool {
+		if fn == nil || len(fn.Blocks) == 0 {
+			return false
+		}
+		for _, in := range fn.Blocks[0].Instrs {
+			switch x := in.(type) {
+			case *ssa.Defer:
+				all := true
+				callees := p.Callees(&x.Call)
+				for _, callee := range callees {
+					if !recvOnAllPaths(callee) {
+						all = false
+					}
+				}
+				if all && len(callees) > 0 {
+					return true
+				}
+			case *ssa.If, *ssa.Return, *ssa.Panic, *ssa.Go, *ssa.Jump:
+				return false
+			case *ssa.Call:
+				name := an.ShortCallee(&x.Call)
+				if strings.HasPrefix(name, "time.") || strings.HasPrefix(name, "github.com/sirupsen/logrus.") {
+					continue
+				}
+				return false
+			}
+		}
+		return false
+	}
+	ok, _ := an.OnAllPathsToExit(snd, func(x ssa.Instruction) bool {
+		g, isGo := x.(*ssa.Go)
+		if !isGo {
+			return false
+		}
+		callees := p.Callees(&g.Call)
+		for _, callee := range callees {
+			if !entryDefersRecv(callee) {
+				return false
+			}
+		}
+		return len(callees) > 0
+	}, nil)
 	return ok
 }
